@@ -1187,6 +1187,7 @@ where
             loop {
                 #[cfg(bpaf_verif)]
                 crate::verif::tick();
+                let attempt_scope = this_arg.scope();
                 match self.inner.eval(&mut this_arg) {
                     Ok(res) => {
                         // there's a smaller adjacent scope, we must try it before returning.
@@ -1200,6 +1201,17 @@ where
                         }
                     }
                     Err(Error(err)) => {
+                        // the failure can come from an item that is not adjacent to the block,
+                        // such item is not a part of it: try the smaller adjacent scope first
+                        this_arg.set_scope(attempt_scope);
+                        if let Some(adj_scope) = this_arg.adjacent_scope(args) {
+                            // an item that is missing here is missing in a smaller scope too
+                            if !adj_scope.is_empty() && !matches!(err, Message::Missing(_)) {
+                                this_arg = args.clone();
+                                this_arg.set_scope(adj_scope);
+                                continue;
+                            }
+                        }
                         let consumed = before - this_arg.len();
                         if consumed > best_consumed {
                             best_consumed = consumed;
